@@ -109,8 +109,10 @@ class Gen:
             dv = False
             if rec:
                 target = ["cls", r.choice(self.struct_ids)]
-                edge = r.choice(["optional", "list", "dict", "vartuple", "pipe"])
-                if edge == "optional":
+                edge = r.choice(["optional", "list", "dict", "vartuple", "pipe", "nonefirst"])
+                if edge == "nonefirst":
+                    ft, dv = ["union", [["none"], target], {"sp": r.choice(["typing", "pipe"])}], None
+                elif edge == "optional":
                     ft, dv = ["union", [target, ["none"]], {"sp": "optional"}], None
                 elif edge == "pipe":
                     ft, dv = ["union", [target, ["none"]], {"sp": "pipe"}], None
@@ -245,6 +247,8 @@ class Gen:
                 inner = self.ty(depth - 1, in_field, allow_union=False)
                 if inner[0] == "none":
                     inner = ["int"]
+                if r.random() < 0.25:
+                    return ["union", [["none"], inner], {"sp": r.choice(["typing", "pipe"])}]
                 return ["union", [inner, ["none"]], {"sp": r.choice(["optional", "typing", "pipe"])}]
             n = ri(r, 2, 3)
             ms = []
